@@ -11,6 +11,7 @@ import (
 
 	"vh/kit"
 	"vh/opgen"
+	"vh/plan"
 	"vh/proj"
 	"vh/sched"
 	"vh/univ"
@@ -208,6 +209,33 @@ func gen(t *rapid.T) Case {
 		t.Skip("generated operation is not valid: " + f.Msg)
 	}
 	c.Defer = strings.Contains(c.Query, "@defer")
+	// a third of the operations also meet failures of user code while they run: resolver errors and
+	// panics, and list elements of abstract type that no implementor matches (the generated type
+	// switch panics inside the element's goroutine, under the concurrency limit)
+	if rapid.Bool().Draw(t, "faults?") {
+		pr, _ := kit.Prepare(s, c.Case)
+		ref := kit.Reference(s, pr, c.Case.Plan())
+		c.Overrides = kit.DrawOverrides(t, kit.Candidates(ref), 2, true)
+		var abstract []string
+		for _, el := range ref.Elems {
+			if el.Abstract && el.ListLen >= 2 {
+				abstract = append(abstract, el.Key)
+			}
+		}
+		if len(abstract) > 0 && rapid.IntRange(0, 3).Draw(t, "foreign?") != 0 {
+			if c.Overrides == nil {
+				c.Overrides = map[string]plan.Outcome{}
+			}
+			n := rapid.IntRange(1, 3).Draw(t, "nforeign")
+			for i := 0; i < n; i++ {
+				c.Overrides[abstract[rapid.IntRange(0, len(abstract)-1).Draw(t, "foreignelem")]] = plan.Outcome{Kind: plan.Foreign}
+			}
+			vfrun.Label("foreign-list-elements")
+		}
+		if len(c.Overrides) > 0 {
+			vfrun.Label("operation-with-failing-user-code")
+		}
+	}
 	return c
 }
 
